@@ -117,10 +117,12 @@ class RefRun:
         elif t == 'dtd':
             oc = circuit.copy()
             od = copy.deepcopy(data)
+            nbd = len(self.blockdata)
             self.run(p['body'], circuit, data, ctx)
             if not p['verdict']:
                 circuit.become(oc)
                 data.__dict__.update(copy.deepcopy(od.__dict__))
+                del self.blockdata[nbd:]
         elif t == 'foreach':
             self.foreach(p, circuit, data)
         elif t == 'pdo':
@@ -376,17 +378,15 @@ def looped(wf, bid, inside=False) -> bool:
 
 
 def describe_wf(wf) -> str:
-    kinds = []
-    for p in wf:
-        if p['t'] in ('foreach', 'pdo'):
-            return {'foreach': 'ForEachBlockPass',
-                    'pdo': 'ParallelDo'}[p['t']]
-    for p in wf:
-        kinds.append({'foreach': 'ForEachBlockPass', 'pdo': 'ParallelDo',
-                      'if': 'IfThenElsePass', 'while': 'WhileLoopPass',
-                      'dowhile': 'DoWhileLoopPass', 'dtd': 'DoThenDecide',
-                      'body': 'Workflow'}[p['t']])
-    return '+'.join(sorted(set(kinds)))
+    """Coarse site for signatures: the distributed pass involved."""
+    text = repr(wf)
+    if "'foreach'" in text and "'pdo'" in text:
+        return 'ForEachBlockPass+ParallelDo'
+    if "'foreach'" in text:
+        return 'ForEachBlockPass'
+    if "'pdo'" in text:
+        return 'ParallelDo'
+    return 'control-passes'
 
 
 def over_runs(got, ref, top, exact: bool) -> list:
